@@ -20,7 +20,7 @@ RULE = (
     "x all JSON trees with <= N nodes (lists; objects over keys a,b in both orders; "
     "leaves 1,'a',null); each (query, document) pair whose prefix result is non-empty "
     "is run through compile()+find() and compared with the reference evaluator; "
-    "plus alternative spellings of every depth<=2 query; distinct by construction, "
+    "plus alternative spellings of every depth<=2 query; plus all depth<=2 queries over 15 index-like / syntax-like names and indices on 9 documents mixing arrays, objects with such member names and strings; distinct by construction, "
     "non-trivial = reference nodelist non-empty"
 )
 ASSUMPTIONS = [
@@ -112,7 +112,15 @@ def shards(tier):
                 for i in range(len(SEGMENTS)) for j in range(len(SEGMENTS))]
         out += [{"tier": tier, "part": "dfs1", "first": i, "d": d, "n": n} for i in range(len(SEGMENTS))]
     out += [{"tier": tier, "part": "spell", "first": i} for i in range(len(SEGMENTS))]
+    out.append({"tier": tier, "part": "numnames"})
     return out
+
+
+NUM_DOCS = [
+    [1, 2], {"0": 1, "1": 2}, [[1], {"0": 2}], {"0": [1, 2], "-1": {"0": 3}}, {"a": [{"1": 1}, [0, 1]], "1": "x"},
+    [{"0": 0, "length": 1}, [9]], {"": 1, " ": 2, "*": 3, "0:1": 4, "a,b": 5, "..": 6}, "01", 0,
+]
+NUM_SELS = ["'0'", "'1'", "'-1'", "0", "1", "-1", "'length'", "''", "' '", "'*'", "'0:1'", "'a,b'", "'..'", "*", "0:1"]
 
 
 def compare(nodes, expected, doc):
@@ -211,6 +219,27 @@ def run_shard(desc):
             maxd = save
         else:
             step("$" + t1, [s1], root, 1)
+    elif desc["part"] == "numnames":
+        # names that look like indices / syntax, on arrays, objects and strings: a name selector
+        # never matches an array element, an index selector never matches an object member
+        for a in NUM_SELS:
+            for b in [None] + NUM_SELS:
+                for dd1 in ("", ".."):
+                    for dd2 in ("", ".."):
+                        text = f"${dd1}[{a}]" + ("" if b is None else f"{dd2}[{b}]")
+                        if b is None and dd2 == "..":
+                            continue
+                        for doc in NUM_DOCS:
+                            sh.states += 1
+                            sh.transitions += 1
+                            sh.traces += 1
+                            sh.evaluations += 1
+                            v = check_case({"query": text, "doc": impl.jsonable(doc)})
+                            if v:
+                                sh.violation(v)
+                            else:
+                                sh.nontrivial += 1 if impl.jp.find(text, doc) else 0
+        sh.sample({"query": "$['0']", "doc": impl.jsonable(NUM_DOCS[1])}, limit=1)
     else:
         # spelling pass: every spelling of depth<=2 queries over trees with <= 3 nodes
         dl = get_docs(3)
